@@ -12,7 +12,7 @@ RULE = ("same space as C04; oracle: an independent optimum - per group all thres
         "best constant classifier; non-trivial = always; distinct = distinct group tuples")
 ASSUMPTIONS = ["reference envelope shares no code with the implementation; palette and size bounds as in C04"]
 CLASSES = ["score_ties", "all_scores_equal_in_group", "grid_size_1", "p_ignore_positive", "flip_used",
-           "randomised_between_thresholds", "three_or_more_groups"]
+           "randomised_between_thresholds", "three_or_more_groups", "near_tie_scores"]
 
 cases = T.cases
 bounds = T.bounds
